@@ -155,6 +155,10 @@ def _shards(tier):
                 if not _useful(seq):
                     continue
                 out.append({"scopes": scopes, "steps": [list(x) for x in seq]})
+        # selected three-step histories (the full set is the thorough tier)
+        for seq in ([(0, 1), (0, 2), (0, 2)], [(1, 1), (1, 2), (1, 2)], [(0, 0), (0, 0), (0, 3)], [(0, 0), (1, 0), (1, 3)],
+                    [(0, 1), (1, 2), (1, 4)], [(1, 0), (1, 0), (1, 3)]):
+            out.append({"scopes": 2, "steps": [list(x) for x in seq]})
     else:
         acts = list(itertools.product(range(2), range(6)))
         for seq in itertools.product(acts, repeat=2):
@@ -191,7 +195,7 @@ OBLIGATIONS = [
                    "prov.model.NamespaceManager.set_default_namespace", "prov.model.NamespaceManager._get_unused_prefix",
                    "prov.identifier.Namespace.__eq__/__getitem__/qname", "prov.identifier.QualifiedName.__init__",
                    "prov.model.ProvBundle.add_namespace/valid_qualified_name", "prov.model.ProvDocument.bundle"],
-        budget_s=(100, 600),
+        budget_s=(200, 600),
         per_path_s=(20, 40),
         stop_on_refute=True,
     )
